@@ -13,6 +13,10 @@ func (t *tree) Insert(ctx context.Context, key, value []byte) error {
 	if value == nil {
 		value = []byte{}
 	}
+	if len(key) > node.MaxKeySize {
+		// Keys (e.g. of a write log received from a peer) beyond this size cannot be addressed.
+		return ErrKeyTooLong
+	}
 
 	t.cache.Lock()
 	defer t.cache.Unlock()
